@@ -241,7 +241,7 @@ class G:
         if k < 7:
             return Obj([(r.choice(CMP_OPS), self.lit(depth + 1))] + ([(r.choice(CMP_OPS), self.scalar_lit())] if r.chance(1, 3) else []))
         if k < 9:
-            if self.exotic and depth == 0 and r.chance(1, 25):
+            if self.exotic and depth == 0 and r.chance(1, 12):
                 # a WIDE list (an `$in` over a thousand ids is ordinary): every element is a literal of its own
                 n = r.choice([999, 1000, 1001, 1024, 1500])
                 mixed = r.chance(1, 3)
